@@ -18,7 +18,8 @@ EXPL = ("Decided: (R-BQ-LINEAR) with h = popcount(u xor v) summed over all store
         "mask arrays are 1<<0..1<<3 and 1<<4..1<<7 loaded in lane order, +1/-1 selected on (byte & mask) == 0, stored at "
         "byte*8 + i*4; (R-FEATURE) target-feature calls are guarded; (R-TRUNC) decoded vectors returned to callers are truncated "
         "to the declared dimension. NOT decided: bit-exact round trip for all patterns and dimensions; the blend intrinsic's "
-        "semantics beyond the table; NEON paths (not compiled).")
+        "semantics beyond the table; NEON paths (not compiled)."
+        " Added: every D::normalized_distance call passes the declared dimension; the quantised cosine quotient is guarded by a test of its own denominator; the SSE decoder's two mask groups are enumerated low nibble first; C18's metric-change rules are re-evaluated (the stored norm header).")
 
 
 def coeff_of(t):
